@@ -69,7 +69,23 @@ pub fn render_list(l: &[Elem]) -> String {
 pub struct NegotCase {
     pub header: Option<Vec<u8>>,
     pub ast: Option<Vec<Elem>>,
+    /// further Accept-Encoding header lines (HeaderMap::append), each rendered from an AST
+    pub more: Vec<Vec<Elem>>,
     pub class: String,
+}
+
+pub fn run_should_gzip_lines(first: &Option<Vec<u8>>, more: &[Vec<u8>]) -> u64 {
+    let mut h = http::HeaderMap::new();
+    if let Some(v) = first {
+        h.insert(http::header::ACCEPT_ENCODING, http::HeaderValue::from_bytes(v).expect("valid header value"));
+    }
+    for v in more {
+        h.append(http::header::ACCEPT_ENCODING, http::HeaderValue::from_bytes(v).expect("valid header value"));
+    }
+    match catch_unwind(AssertUnwindSafe(|| http_serve::should_gzip(&h))) {
+        Ok(b) => b as u64,
+        Err(_) => 2,
+    }
 }
 
 pub fn run_should_gzip(header: &Option<Vec<u8>>) -> u64 {
@@ -84,12 +100,15 @@ pub fn run_should_gzip(header: &Option<Vec<u8>>) -> u64 {
 }
 
 pub fn case_line(id: &str, c: &NegotCase) -> String {
-    let obs = run_should_gzip(&c.header);
+    let more_bytes: Vec<Vec<u8>> = c.more.iter().map(|l| render_list(l).into_bytes()).collect();
+    let obs = run_should_gzip_lines(&c.header, &more_bytes);
     let hint = match &c.ast {
         Some(l) => Val::L(vec![Val::L(l.iter().map(|e| e.val()).collect())]),
         None => Val::L(vec![]),
     };
-    let v = Val::L(vec![Val::L(vec![Val::opt(c.header.as_ref().map(|h| Val::bytes(h))), hint]), Val::N(obs)]);
+    // each further line: its bytes and the AST it was rendered from
+    let more = Val::L(c.more.iter().zip(more_bytes.iter()).map(|(l, b)| Val::L(vec![Val::bytes(b), Val::L(l.iter().map(|e| e.val()).collect())])).collect());
+    let v = Val::L(vec![Val::L(vec![Val::opt(c.header.as_ref().map(|h| Val::bytes(h))), hint, more]), Val::N(obs)]);
     format!("negot {} {}", id, v.to_string())
 }
 
@@ -136,8 +155,9 @@ fn mk_elem(rng: &mut Rng, coding: &str, w: &Option<Weight>, canonical_ws: bool) 
 }
 
 pub fn gen_c16(rng: &mut Rng, thorough: bool, emit: &mut dyn FnMut(NegotCase)) {
-    emit(NegotCase { header: None, ast: None, class: "absent".into() });
-    emit(NegotCase { header: Some(vec![]), ast: None, class: "empty".into() });
+    gen_multiline(rng, emit);
+    emit(NegotCase { header: None, ast: None, more: vec![], class: "absent".into() });
+    emit(NegotCase { header: Some(vec![]), ast: None, more: vec![], class: "empty".into() });
     let ws_all = weights();
     let nw = if thorough { ws_all.len() } else { 11 + 6 };
     let ws_ = &ws_all[..nw];
@@ -168,7 +188,7 @@ pub fn gen_c16(rng: &mut Rng, thorough: bool, emit: &mut dyn FnMut(NegotCase)) {
         }
         let l: Vec<Elem> = combo.iter().map(|(c, w)| mk_elem(rng, CODINGS[*c], &ws_all[*w], true)).collect();
         let h = render_list(&l);
-        emit(NegotCase { header: Some(h.clone().into_bytes()), ast: Some(l), class: format!("G:exhaustive {:?}", h) });
+        emit(NegotCase { header: Some(h.clone().into_bytes()), ast: Some(l), more: vec![], class: format!("G:exhaustive {:?}", h) });
     }
     // sampled: up to 4 elements, whitespace variants, duplicate codings
     let n = if thorough { 200000 } else { 6000 };
@@ -182,7 +202,7 @@ pub fn gen_c16(rng: &mut Rng, thorough: bool, emit: &mut dyn FnMut(NegotCase)) {
             })
             .collect();
         let h = render_list(&l);
-        emit(NegotCase { header: Some(h.clone().into_bytes()), ast: Some(l), class: format!("G:sampled {:?}", h) });
+        emit(NegotCase { header: Some(h.clone().into_bytes()), ast: Some(l), more: vec![], class: format!("G:sampled {:?}", h) });
     }
     // near misses and arbitrary bytes: no-panic clause, compared with the model
     for h in [
@@ -191,7 +211,7 @@ pub fn gen_c16(rng: &mut Rng, thorough: bool, emit: &mut dyn FnMut(NegotCase)) {
         "gzip;q=0.+99", "gzip;q=0.-1", "gzip ;q= 1", "gzip;q=1 0", "*;q=0", "*", "identity;q=0", "gzip;q=0.001", "gzip;q=65536",
         "gzip;q=0.65536", "gzip;q=0.655", "gz ip", " ", "\t", "gzip\t;\tq=0.5\t,\tidentity\t;\tq=0.4",
     ] {
-        emit(NegotCase { header: Some(h.as_bytes().to_vec()), ast: None, class: format!("N:fixed {:?}", h) });
+        emit(NegotCase { header: Some(h.as_bytes().to_vec()), ast: None, more: vec![], class: format!("N:fixed {:?}", h) });
     }
     let n = if thorough { 100000 } else { 4000 };
     for _ in 0..n {
@@ -209,6 +229,34 @@ pub fn gen_c16(rng: &mut Rng, thorough: bool, emit: &mut dyn FnMut(NegotCase)) {
         if http::HeaderValue::from_bytes(&v).is_err() {
             continue;
         }
-        emit(NegotCase { header: Some(v.clone()), ast: None, class: format!("A {:?}", String::from_utf8_lossy(&v)) });
+        emit(NegotCase { header: Some(v.clone()), ast: None, more: vec![], class: format!("A {:?}", String::from_utf8_lossy(&v)) });
+    }
+}
+
+/// Several Accept-Encoding lines in one request (a client or proxy that repeats the header): pairs and
+/// triples of one-element lines over the codings and a few weights.
+pub fn gen_multiline(rng: &mut Rng, emit: &mut dyn FnMut(NegotCase)) {
+    let ws_all = weights();
+    let wsel = [0usize, 1, 6, 8, 5]; // none, 0, 0.5, 1, 0.001
+    let mut lines: Vec<Vec<Elem>> = vec![];
+    for c in ["gzip", "identity", "*", "br"] {
+        for w in wsel {
+            lines.push(vec![mk_elem(rng, c, &ws_all[w], true)]);
+        }
+    }
+    for a in &lines {
+        for b in &lines {
+            let h = render_list(a);
+            emit(NegotCase { header: Some(h.clone().into_bytes()), ast: Some(a.clone()), more: vec![b.clone()],
+                             class: format!("G:two-lines {:?} + {:?}", h, render_list(b)) });
+        }
+    }
+    for _ in 0..300 {
+        let a = rng.pick(&lines).clone();
+        let b = rng.pick(&lines).clone();
+        let c = rng.pick(&lines).clone();
+        let h = render_list(&a);
+        emit(NegotCase { header: Some(h.clone().into_bytes()), ast: Some(a), more: vec![b.clone(), c.clone()],
+                         class: format!("G:three-lines {:?} + {:?} + {:?}", h, render_list(&b), render_list(&c)) });
     }
 }
